@@ -32,11 +32,33 @@ JOINS = {"AND": "JAnd", "OR": "JOr", "AND_G": "JAndG"}
 
 # ----------------------------------------------------------------------------- Coq literals
 def cstr(s):
-    """A string as one number (Pack_C37.U): binary digits 1 c1 c2 ... cn, 21 bits per code point."""
-    n = 1
-    for ch in s:
-        n = (n << 21) | ord(ch)
-    return f"(U {n}%N)"
+    """A string occurrence.  Rendered as a marker; `intern_row` replaces the markers of one case by
+    references `(T t i)` into that case's table of distinct strings, so that every distinct string
+    is written (and parsed by coqc) once per case."""
+    return "\u00abS:" + s.encode("utf-8").hex() + "\u00bb"
+
+
+_MARK = None
+
+
+def intern_row(row):
+    import re
+    global _MARK
+    if _MARK is None:
+        _MARK = re.compile("\u00abS:([0-9a-f]*)\u00bb")
+    table, index = [], {}
+
+    def sub(m):
+        h = m.group(1)
+        i = index.get(h)
+        if i is None:
+            i = index[h] = len(table)
+            table.append(bytes.fromhex(h).decode("utf-8"))
+        return f"(t {i})"
+
+    body = _MARK.sub(sub, row)
+    lits = ['"' + w.replace('"', '""') + '"' for w in table]
+    return "(let t := TBL (map S2L (" + clist(lits, "String.string") + ")%string) in\n   " + body + ")"
 
 
 def pval(x):
@@ -52,6 +74,8 @@ def pval(x):
     if isinstance(x, str):
         return f"(VS {cstr(x)})"
     if isinstance(x, (list, tuple)):
+        if len(x) == 2 and isinstance(x[0], str) and isinstance(x[1], str):
+            return f"(P {cstr(x[0])} {cstr(x[1])})"
         return "(VL " + clist([pval(i) for i in x], "val") + ")"
     raise TypeError(f"cannot canonicalise {type(x)}")
 
@@ -300,6 +324,24 @@ class Gen:
         return bugs
 
 
+def digest(ps):
+    """Pack_C37.digest: a run of >= 3 consecutive parameters with the same key becomes
+    [key, first value, last value, length]; the exact values of every batch are checked by batch_oracle."""
+    out, i = [], 0
+    while i < len(ps):
+        k, v = ps[i]
+        j = i + 1
+        while j < len(ps) and ps[j][0] == k:
+            j += 1
+        if j - i >= 3:
+            out.append([k, v, ps[j - 1][1], j - i])
+            i = j
+        else:
+            out.append([k, v])
+            i += 1
+    return out
+
+
 def batch_oracle(q, s, base, mx, batches):
     """partition / unchanged / budget checked directly on the implementation's output, with the real
     urlencode.  Returns None or (what, detail, axis_info)."""
@@ -354,46 +396,66 @@ def eval_streams(chk, streams):
 
     from .common import COQ, COQC_TIMEOUT
 
-    jobs = []  # (stream, k, offset, modname, ty, evals)
+    mods = {}  # stream -> [module names]
     for name, ty, cases, evals in streams:
-        cap = chk.n(4, 12)
-        n = max(1, min(cap, (len(cases) + 59) // 60)) if name != "batches" else max(1, min(2 * cap, (len(cases) + 7) // 8))
+        cap = chk.n(2, 8)
+        n = max(1, min(cap, (len(cases) + 199) // 200)) if name != "batches" else max(1, min(2 * cap, (len(cases) + 19) // 20))
         size = (len(cases) + n - 1) // n or 1
-        for k in range(0, len(cases), size):
+        mods[name] = []
+        for k in range(0, max(len(cases), 1), size):
             mod = f"d_{name}_{k // size}"
-            rows = [f"  ({inp},\n   {res.term if isinstance(res, Raw) else pval(res)})" for inp, res in cases[k:k + size]]
+            rows = [intern_row(f"({inp}, {res.term if isinstance(res, Raw) else pval(res)})")
+                    for inp, res in cases[k:k + size]]
             (chk.scratch / f"{mod}.v").write_text(
-                IMPORTS + "\nImport ListNotations.\n" + f"Definition cases : list (({ty}) * val) := [\n"
-                + ";\n".join(rows) + "\n].\n")
-            jobs.append((name, k, mod, ty, evals))
+                "From Coq Require Import String.\n" + IMPORTS + "\nImport ListNotations.\n" + f"Definition cases_t : Type := list (({ty}) * val).\n"
+                "Local Open Scope N_scope.\n" + "Definition cases : cases_t := "
+                + ("[\n" + ";\n".join(rows) + "\n].\n" if rows else "nil.\n"))
+            mods[name].append(mod)
 
-    def run(job):
-        name, off, mod, ty, evals = job
-        r = subprocess.run(["timeout", str(COQC_TIMEOUT), "coqc", "-noglob", "-R", str(COQ), "Verif",
-                            "-Q", str(chk.scratch), "Cases", str(chk.scratch / f"{mod}.v")],
-                           capture_output=True, text=True, cwd=chk.scratch)
-        if r.returncode != 0:
-            chk.violation("correspondence", {"what": f"case table {mod} of stream '{name}' does not compile in Coq",
-                                             "stderr": r.stderr[-3000:]}, True)
-            return None
-        return chk.coq_eval(mod, IMPORTS + f"\nFrom Cases Require {mod}.", ty, [],
-                            [e.replace("cases", f"{mod}.cases") for e in evals])
+    def compile_mod(mod):
+        return mod, subprocess.run(["timeout", str(COQC_TIMEOUT), "coqc", "-noglob", "-R", str(COQ), "Verif",
+                                    "-Q", str(chk.scratch), "Cases", str(chk.scratch / f"{mod}.v")],
+                                   capture_output=True, text=True, cwd=chk.scratch)
 
     with cf.ThreadPoolExecutor(max_workers=12) as ex:
-        outs = list(ex.map(run, jobs))
-    results = {}
-    for (name, off, mod, ty, evals), r in zip(jobs, outs):
-        if r is None:
-            results[name] = None
-            continue
-        if name in results and results[name] is None:
-            continue
-        acc = results.setdefault(name, [[] for _ in evals])
-        for j, idxs in enumerate(r):
-            acc[j].extend(off + i for i in idxs)
+        compiled = dict(ex.map(compile_mod, [m for ms in mods.values() for m in ms]))
+
+    bad = set()
     for name, ty, cases, evals in streams:
-        results.setdefault(name, [[] for _ in evals])
+        for mod in mods[name]:
+            r = compiled[mod]
+            if r.returncode != 0:
+                bad.add(name)
+                keep = common_replay_dir() / f"C37-{chk.seed}-{mod}.v"
+                keep.write_text((chk.scratch / f"{mod}.v").read_text())
+                chk.violation("correspondence", {"what": f"case table {mod} of stream '{name}' does not compile in Coq",
+                                                 "file": str(keep), "stderr": r.stderr[-3000:]}, True)
+    # one evaluation file for all streams: coq_eval's own table stays empty, the expressions name
+    # the data modules' tables
+    good = [st for st in streams if st[0] not in bad]
+    evals, owner = [], []
+    for name, ty, cases, evs in good:
+        allc = " ++ ".join(f"{m}.cases" for m in mods[name])
+        for j, e in enumerate(evs):
+            evals.append(e.replace("cases", f"({allc})"))
+            owner.append((name, j))
+    results = {st[0]: None for st in streams}
+    if good:
+        req = "\nFrom Cases Require " + " ".join(m for st in good for m in mods[st[0]]) + "."
+        r = chk.coq_eval("all", IMPORTS + req, "unit", [], evals)
+        if r is not None:
+            for name, ty, cases, evs in good:
+                results[name] = [[] for _ in evs]
+            for (name, j), idxs in zip(owner, r):
+                results[name][j] = idxs
     return results
+
+
+def common_replay_dir():
+    from .common import VERIF
+    d = VERIF / "replay"
+    d.mkdir(exist_ok=True)
+    return d
 
 
 # ----------------------------------------------------------------------------- main
@@ -515,7 +577,7 @@ def main(chk: Check):
 
     def batch_query():
         k = rng.randrange(10)
-        n = rng.choice([0, 1, 2, 5, 20, 60, 120]) if rng.random() < 0.93 else rng.choice([300, 500])
+        n = rng.choice([0, 1, 2, 5, 20, 60, 120]) if rng.random() < 0.93 else rng.choice([250])
         if k == 0:
             q = Q.ids(long_ids(n))
         elif k == 1:
@@ -571,7 +633,8 @@ def main(chk: Check):
     for q, base, mx in batch_inputs:
         s = s_query(q)
         res = impl_call(lambda: [[[str(k), str(v)] for k, v in b.params()] for b in q.batches(base, mx)])
-        batch_cases.append((cpair(c_query(s), cZ(base), cZ(mx)), res))
+        batch_cases.append((cpair(c_query(s), cZ(base), cZ(mx)),
+                            res if isinstance(res, Err) else [digest(b) for b in res]))
         if isinstance(res, Err):
             batch_fail.append((s, base, mx, ("batches() raised " + res.kind, {}, None)))
             continue
@@ -583,7 +646,7 @@ def main(chk: Check):
     chk.count("batches", len(batch_cases))
     b0 = batch_inputs[0]
     chk.sample({"stream": "batches", "query": "ids(900000..900399)", "base": b0[1], "max": b0[2],
-                "impl_batch_sizes": [len(b) for b in batch_cases[0][1]]})
+                "impl_batch_sizes": [sum(e[3] if len(e) == 4 else 1 for e in b) for b in batch_cases[0][1]]})
 
     # ---- evaluate model and spec inside Coq
     QB = "list (str * list str)"
@@ -597,7 +660,7 @@ def main(chk: Check):
          ["mismatches run_anyof cases", "where_ (fun i r => negb (spec_anyof_ok i r)) cases"]),
         ("paged", "query * Z * Z", paged_cases, ["mismatches run_paged cases"]),
         ("enclen", "query", enclen_cases, ["mismatches run_enclen cases"]),
-        ("batches", "query * Z * Z", batch_cases, ["mismatches run_batches cases"]),
+        ("batches", "query * Z * Z", batch_cases, ["mismatches run_batches_d cases"]),
     ]
     results = eval_streams(chk, streams) if ok else {}
 
